@@ -5,6 +5,8 @@ import (
 	"strconv"
 	"strings"
 	"time"
+
+	"github.com/casbin/casbin/v2"
 )
 
 func init() { registry["C07"] = runC07 }
@@ -35,6 +37,72 @@ func sortedByPriority(pol [][]string, seq map[string]int) (bool, string) {
 	return true, ""
 }
 
+// two policy definitions with a priority field: on p it is the last field, on p2 the first; each has
+// its own matcher (EnforceContext selects p2)
+func prioTwoTypesModel() *MSpec {
+	return NewMSpec().AddR("r", "sub", "obj", "act").
+		AddP("p", "sub", "obj", "act", "eft", "priority").
+		AddP("p2", "priority", "sub", "obj", "act", "eft").
+		AddE("e", effPriority).
+		AddM("m", "r", "p", And(Eq(RTok(0), PTok(0)), Eq(RTok(1), PTok(1)), Eq(RTok(2), PTok(2)))).
+		AddM("m2", "r", "p2", And(Eq(RTok(0), PTok(1)), Eq(RTok(1), PTok(2)), Eq(RTok(2), PTok(3))))
+}
+
+func c07TwoTypes(c *Ctx) {
+	ms := prioTwoTypesModel()
+	req := []V{VS("alice"), VS("data1"), VS("read")}
+	ctx2 := &casbin.EnforceContext{RType: "r", PType: "p2", EType: "e", MType: "m2"}
+	rulesP := [][]string{{"alice", "data1", "read", "allow", "10"}, {"alice", "data1", "read", "deny", "1"}, {"alice", "data1", "read", "allow", "5"}}
+	rulesP2 := [][]string{{"10", "alice", "data1", "read", "allow"}, {"1", "alice", "data1", "read", "deny"}, {"5", "alice", "data1", "read", "allow"}}
+	for _, loaded := range []bool{false, true} {
+		for _, idx := range seqsUpTo(3, 3) {
+			if len(idx) == 0 {
+				continue
+			}
+			opts := CaseOpts{}
+			if loaded {
+				opts.Adapter = true
+			}
+			s := StartCase(c, ms, opts)
+			if s == nil {
+				continue
+			}
+			for _, i := range idx {
+				s.Do(c, EOp{Kind: "add", Sec: "p", PType: "p", Rule: rulesP[i]})
+				s.Do(c, EOp{Kind: "add", Sec: "p", PType: "p2", Rule: rulesP2[i]})
+				s.Do(c, EOp{Kind: "obs", Args: []string{"pol", "p", "p"}})
+				s.Do(c, EOp{Kind: "obs", Args: []string{"pol", "p", "p2"}})
+				d1 := s.Do(c, EOp{Kind: "enf", Req: req})
+				d2 := s.Do(c, EOp{Kind: "enf", Ctx: ctx2, Req: req})
+				// on the implementation: both definitions hold the same rules, so they decide alike, and the
+				// listed order is the priority order whatever the insertion order
+				if d1 != d2 {
+					c.Direct("two policy definitions holding the same prioritised rules decide differently", fmt.Sprintf("loaded=%v insertion order %v: p decides %s, p2 decides %s", loaded, idx, d1, d2))
+				}
+				for _, pt := range []string{"p", "p2"} {
+					pol := s.E.GetModel()["p"][pt].Policy
+					fi := 0
+					if pt == "p" {
+						fi = 4
+					}
+					for k := 1; k < len(pol); k++ {
+						a, _ := strconv.Atoi(pol[k-1][fi])
+						b, _ := strconv.Atoi(pol[k][fi])
+						if a > b {
+							c.Direct("the listed rules of a prioritised definition are not in priority order", fmt.Sprintf("loaded=%v definition %s insertion order %v: %v", loaded, pt, idx, pol))
+						}
+					}
+				}
+			}
+			c.Evals++
+			c.Count("two_type_cases", 1)
+			if len(idx) > 1 && idx[0] != 1 {
+				c.Nontrivial(fmt.Sprintf("two-types|%v|%v", loaded, idx))
+			}
+		}
+	}
+}
+
 func runC07(c *Ctx) {
 	maxIns := 4
 	maxEdges := 4
@@ -43,10 +111,11 @@ func runC07(c *Ctx) {
 		maxEdges = 6
 	}
 	c.Exhaustive = true
-	c.Rule = fmt.Sprintf("explicit priority: all insertion orders of <= %d of 7 prioritised rules (priorities -1, 0, 1, 1, 2, 10, and one that does not parse) x {never loaded, loaded empty, loaded from a store with two rules} followed by a removal, an update that keeps the priority, a batch add and a reload; the listed order and the decision are compared with the Lean model after every call; on the implementation the listed rules must be in non-decreasing priority order with equal priorities in insertion order, and the decision must be the effect of the matching rule of least priority; subject priority: all role graphs with <= %d links on 4 names (trees, DAGs, cycles, self loops) loaded through the string adapter under a 5 s watchdog, loaded order and decisions vs the model (graphs whose order depends on map iteration are recognised by the model and skipped: finding D22); for forests the deeper subject's rule must precede; non-trivial = a case in which the insertion order differs from the priority order / a graph with at least two levels; distinct = case", maxIns, maxEdges)
+	c.Rule = fmt.Sprintf("explicit priority: all insertion orders of <= %d of 7 prioritised rules (priorities -1, 0, 1, 1, 2, 10, and one that does not parse) x {never loaded, loaded empty, loaded from a store with two rules} followed by a removal, an update that keeps the priority, a batch add and a reload; the listed order and the decision are compared with the Lean model after every call; on the implementation the listed rules must be in non-decreasing priority order with equal priorities in insertion order, and the decision must be the effect of the matching rule of least priority; two prioritised definitions in one model (priority as last field of p, first field of p2, EnforceContext), all insertion orders, never loaded / loaded; subject priority: all role graphs with <= %d links on 4 names (trees, DAGs, cycles, self loops) loaded through the string adapter under a 5 s watchdog, loaded order and decisions vs the model (graphs whose order depends on map iteration are recognised by the model and skipped: finding D22); for forests the deeper subject's rule must precede; non-trivial = a case in which the insertion order differs from the priority order / a graph with at least two levels; distinct = case", maxIns, maxEdges)
 	cands := [][]string{{"-1", "alice", "data1", "read", "deny"}, {"0", "alice", "data1", "read", "allow"}, {"1", "alice", "data1", "read", "deny"},
 		{"1", "alice", "data1", "read", "allow"}, {"2", "alice", "data1", "read", "other"}, {"10", "admin", "data1", "read", "deny"}, {"x", "alice", "data1", "read", "allow"}}
 	ms := prioSpecModel()
+	c07TwoTypes(c)
 	starts := []string{"never-loaded", "loaded-empty", "loaded-two"}
 	req := []V{VS("alice"), VS("data1"), VS("read")}
 	for _, start := range starts {
